@@ -31,11 +31,15 @@ fn gen(rng: &mut Rng, _i: usize) -> Case {
                 1 => 1,
                 _ => rng.range(0, 8),
             };
-            let mut t = rng.range(0, 5);
+            // sometimes timestamps close to i64::MAX (the value the frontier uses for ended replicas)
+            let mut t = if rng.chance(1, 25) { i64::MAX - 40 } else { rng.range(0, 5) };
             let mut last_wm: Option<i64> = None;
             for _ in 0..len {
                 val += 1;
-                if timestamped {
+                if timestamped && rng.chance(1, 10) {
+                    // plain items between timestamped ones (they pass through unchanged)
+                    l.push(format!("I:{val}"));
+                } else if timestamped {
                     match rng.below(4) {
                         0 => {
                             // watermark: strictly above the previous one, possibly equal to earlier ts
@@ -82,11 +86,23 @@ fn gen(rng: &mut Rng, _i: usize) -> Case {
         order.swap(i, j);
     }
     let drop_last = rng.chance(1, 10);
+    // in half of the cases the Terminates are queued right behind the last batch (`q` = send
+    // without pulling), so that no receive timeout falls between the last FlushAndRestart and them
+    let queued = rng.chance(1, 2);
+    if queued {
+        if let Some(last) = c.ops.last_mut() {
+            if last[0] == "b" {
+                last[0] = "q".into();
+            }
+        }
+    }
+    let nterm = if drop_last { n - 1 } else { n };
     for (k, r) in order.iter().enumerate() {
-        if drop_last && k + 1 == n {
+        if k >= nterm {
             break;
         }
-        c.ops(vec!["b".into(), r.to_string(), "TERM".into()]);
+        let op = if queued && k + 1 < nterm { "q" } else { "b" };
+        c.ops(vec![op.into(), r.to_string(), "TERM".into()]);
     }
     c
 }
@@ -101,7 +117,7 @@ fn exec(c: &Case) -> Vec<String> {
     let mut out = vec![];
     let mut done = false;
     for (i, w) in c.ops.iter().enumerate() {
-        if w[0] != "b" || done {
+        if (w[0] != "b" && w[0] != "q") || done {
             continue;
         }
         let r: usize = w[1].parse().unwrap();
@@ -113,6 +129,9 @@ fn exec(c: &Case) -> Vec<String> {
             continue;
         }
         senders[r].send(batch);
+        if w[0] == "q" {
+            continue; // queued: the next `b` pulls it
+        }
         loop {
             let e = op.next();
             match e {
